@@ -18,12 +18,17 @@ fn canon(v: &Value) -> String {
     }
 }
 
-/// element kinds of one grid field: 0 scalar, 1 object with one key, 2 object with two keys, 3 mixed
+/// fields of the original query that object-valued options of grid field 0 / 1 / 2 collide with (kind 4)
+const COLLIDING: [&str; 3] = ["origin_vertex", "tag", "extra2"];
+
+/// element kinds of one grid field: 0 scalar, 1 object with one key, 2 object with two keys, 3 mixed, 4 object whose key
+/// is also a field of the original query (the option must replace it, otherwise two combinations yield the same query)
 fn field_values(field: usize, size: usize, kind: usize) -> Vec<Value> {
     (0..size)
         .map(|i| {
             let k = if kind == 3 { i % 3 } else { kind };
             match k {
+                4 => json!({COLLIDING[field % 3]: format!("c{}_{}", field, i), format!("m{}", field): i}),
                 0 => {
                     if (field + i) % 2 == 0 {
                         json!(10 * field + i)
@@ -149,20 +154,21 @@ pub fn run(tier: Tier) -> i32 {
     let sizes: Vec<usize> = tier.pick(vec![1, 2, 3], vec![1, 2, 3, 4]);
     let extras_sets: Vec<Map<String, Value>> = vec![
         Map::new(),
-        [("origin_vertex".to_string(), json!(0)), ("tag".to_string(), json!({"keep": ["me", 1]}))].into_iter().collect(),
+        [("origin_vertex".to_string(), json!(0)), ("tag".to_string(), json!({"keep": ["me", 1]})), ("extra2".to_string(), json!([2]))].into_iter().collect(),
     ];
+    const KINDS: usize = 5;
     let names = ["alpha", "beta", "gamma"];
     for m in 1..=max_fields {
         // sizes^m x kinds^m
-        let combos = sizes.len().pow(m as u32) * 4usize.pow(m as u32);
+        let combos = sizes.len().pow(m as u32) * KINDS.pow(m as u32);
         for code in 0..combos {
             let mut c = code;
             let mut fs = vec![];
             for f in 0..m {
                 let size = sizes[c % sizes.len()];
                 c /= sizes.len();
-                let kind = c % 4;
-                c /= 4;
+                let kind = c % KINDS;
+                c /= KINDS;
                 fs.push((names[f].to_string(), field_values(f, size, kind)));
             }
             for perm in permutations(m) {
@@ -204,10 +210,10 @@ pub fn run(tier: Tier) -> i32 {
     finish(
         &info,
         st,
-        "state = one query object: 1-3 grid fields x sizes x element kinds {scalar, object with 1 key, object with 2 keys, mixed} x every key order of the grid section x {no, two} extra fields x grid section first/last; transition = one expansion through GridSearchPlugin::process or apply_input_plugins (flattening); oracle = reference Cartesian product compared as canonical multiset; non-trivial = product size > 1",
+        "state = one query object: 1-3 grid fields x sizes x element kinds {scalar, object with 1 key, object with 2 keys, mixed, object with a key that is also a field of the original query} x every key order of the grid section x {no, three} extra fields x grid section first/last; transition = one expansion through GridSearchPlugin::process or apply_input_plugins (flattening); oracle = reference Cartesian product compared as canonical multiset; non-trivial = product size > 1",
         true,
-        json!({"max_grid_fields": max_fields, "sizes": sizes, "element_kinds": 4}),
-        vec!["object-valued choices use keys disjoint from each other and from the extra fields (colliding keys have no defined order in the statement)".into()],
+        json!({"max_grid_fields": max_fields, "sizes": sizes, "element_kinds": 5}),
+        vec!["object-valued choices of different grid fields use disjoint keys (two grid fields offering the same key cannot yield one distinct query per combination under any order, so the statement does not define that case); an option whose key is also a field of the original query must replace it - otherwise different options yield the same query twice".into()],
     )
 }
 
